@@ -261,7 +261,7 @@ func genHelpNode(r *rand.Rand, name string, depth int, parent *hNode, version bo
 			decls = append(decls, func(c *cli.Cmd) { c.Int(cli.IntOpt{Name: name, Desc: d, EnvVar: e, Value: v, HideValue: hide}) })
 			def = strconv.Itoa(v)
 		case 3:
-			v := []float64{0, 1.5, -2}[r.Intn(3)]
+			v := []float64{0, 1.5, -2, 2.5e6, 1e-5, 1e21, 123456.5}[r.Intn(7)] // shown the way Go prints a float (%v)
 			decls = append(decls, func(c *cli.Cmd) { c.Float64(cli.Float64Opt{Name: name, Desc: d, EnvVar: e, Value: v, HideValue: hide}) })
 			def = fmt.Sprintf("%v", v)
 		case 4:
@@ -285,7 +285,7 @@ func genHelpNode(r *rand.Rand, name string, depth int, parent *hNode, version bo
 				def = "[" + strings.Join(q, ", ") + "]"
 			}
 		default:
-			v := [][]float64{nil, {1.5}, {1, 2.5}}[r.Intn(3)]
+			v := [][]float64{nil, {1.5}, {1, 2.5}, {0.5, 1e7, 3e-9}}[r.Intn(4)]
 			decls = append(decls, func(c *cli.Cmd) {
 				c.Floats64(cli.Floats64Opt{Name: name, Desc: d, EnvVar: e, Value: v, HideValue: hide})
 			})
